@@ -343,3 +343,79 @@ PLANS["C16"] = {
                     "API calls')", "CUSTOM cipher/hash jobs (function pointers supplied by the dead process) are not "
                     "part of the histories"],
 }
+
+
+TSAN_ALLOWED_GLOBALS = {"imb_errno", "cpuid_1_0", "cpuid_7_0", "cpuid_7_1", "counter.0", "counter",
+                        "imb_verif_cpu_feature_mask"}
+
+
+def _tsan_post(agg, res, label, synthetic):
+    """Classify ThreadSanitizer reports by racing object: documented process-wide globals are counted,
+    anything else that involves library code is a C17 violation."""
+    import re
+    blocks = res["err"].split("==================")
+    nrep = 0
+    for b in blocks:
+        if "WARNING: ThreadSanitizer" not in b:
+            continue
+        nrep += 1
+        kind = re.search(r"WARNING: ThreadSanitizer: ([^(\n]+)", b).group(1).strip()
+        loc = re.search(r"Location is (global '([^']+)'|heap block|stack of|TLS of|file descriptor)", b)
+        gname = loc.group(2) if loc and loc.group(2) else None
+        locs = gname or (loc.group(1) if loc else "unknown")
+        libframes = re.findall(r"#\d+ (\S+) /repo/lib/\S+", b)
+        if kind.startswith("data race") and gname in TSAN_ALLOWED_GLOBALS:
+            agg.counts["tsan_reports_on_documented_globals"] = agg.counts.get("tsan_reports_on_documented_globals", 0) + 1
+            s = agg.samples.setdefault("tsan", [])
+            if len(s) < 4:
+                s.append("data race on documented global '%s' (%s)" % (gname, libframes[0] if libframes else "?"))
+            continue
+        if not libframes:
+            agg.counts["tsan_reports_harness_only"] = agg.counts.get("tsan_reports_harness_only", 0) + 1
+            if len(agg.notes) < 40:
+                agg.notes.append({"ev": "note", "what": "tsan-harness-only", "detail": b.strip()[:600]})
+            continue
+        key = "C17|tsan|%s|%s|%s" % (kind.replace(" ", "-"), locs, libframes[0])
+        synthetic.append(("C17", key, "ThreadSanitizer report involving library code:\n" + b.strip()[:1800], None))
+    agg.counts["tsan_report_blocks"] = agg.counts.get("tsan_report_blocks", 0) + nrep
+    agg.counts["tsan_runs"] = agg.counts.get("tsan_runs", 0) + 1
+
+
+def _c17(tier, seed):
+    q = tier == "quick"
+    tsan_env = {"TSAN_OPTIONS": "halt_on_error=0:exitcode=0:report_signal_unsafe=0:history_size=4"}
+    return [
+        # few shards so that the threads of one shard really run in parallel
+        {"engine": "threads", "args": [], "cases": 1200 if q else 40000, "shards": 3, "timeout": 3000},
+        # M-SEG needs the library as a shared object (own writable segment); eager binding keeps the GOT still
+        {"engine": "threads", "args": [], "cases": 300 if q else 6000, "shards": 2, "shared": True, "timeout": 3000,
+         "env": {"LD_BIND_NOW": "1"}},
+        {"engine": "threads", "args": [], "cases": 120 if q else 3000, "shards": 2, "flavour": "tsan", "timeout": 3000,
+         "env": tsan_env, "post": _tsan_post},
+    ]
+
+
+PLANS["C17"] = {
+    "level": "exploration",
+    "runs": _c17,
+    "cov_class": "C17",
+    "rule": ("cases = sets of 2..8 programs (one manager each; variants all-equal or mixed, sometimes two identical "
+             "programs; allocation + init incl. self-test, 8..19 jobs of 16 cipher / 16 hash / 7 AEAD suites and "
+             "chained pairs, invalid submissions, get_completed/flush, 8 kinds of direct-API calls incl. misuse "
+             "that sets the error code, free). Every call yields a trace record (job handed back, status, output "
+             "hash, manager's own error code, imb_get_errno value). Each case is run alone, interleaved call by call "
+             "in one thread (random schedule, with delayed error-code reads of idle managers) and 3-4 times with one "
+             "thread per program (two barriers, random yields/spins); traces must be equal record by record and all "
+             "outputs equal the reference models. An atomic gauge counts calls that overlapped with another "
+             "thread's call. Second run: shared-library build, the library's writable segment is diffed around every "
+             "case (positive control at start), changes outside the documented globals are violations. Third run: "
+             "ThreadSanitizer build, reports classified by racing object. distinct = distinct (variant combination, "
+             "number of managers) cases; non-trivial = all cases have >=2 managers."),
+    "floors": {"quick": {"cases": 1500, "overlapped_steps": 100000, "program_traces_compared": 20000,
+                         "mseg_selfcheck_ok": 2, "mseg_bytes_diffed": 10000000, "tsan_runs": 2,
+                         "delayed_errno_reads": 5000}},
+    "assumptions": ["each manager is used by one thread at a time (as documented)",
+                    "ThreadSanitizer sees the library's C code only; hand-written assembly is not instrumented (the "
+                    "writable-segment diff covers globals written from assembly)",
+                    "schedules are sampled by the OS scheduler plus injected yields, not enumerated"],
+}
